@@ -108,6 +108,29 @@ def check_ordered(ctx: Context, rep, rule: str):
     return maps
 
 
+def check_exit_reports(ctx: Context, rep, rule: str) -> None:
+    """On exit the filler writes every list it touched (with digests) and
+    reports all of them, unfiltered."""
+    filler = ctx.repo.cls(f"{DF}:DatasetFiller")
+    gi = filler.methods["get_updated_infos"]
+    # (_update_infos is read in its inlined form, see inline.FORCE_INLINE)
+    from sa import collalg
+    ui = filler.methods["__exit__"]
+    t = collalg.CollAlg(ui).env.get("self._updated_infos", ("empty", ))
+    parts = [p for p in collalg.concat_parts(t)
+             if not (p[0] == "src" and p[1] == "self._updated_infos")]
+    ok_ui = len(parts) == 1 and parts[0][0] == "map" and \
+        parts[0][1][0] == "items" and parts[0][1][1][0] == "src" and \
+        parts[0][1][1][1].endswith("shard_lists") and \
+        parts[0][2].startswith("_v.write_config(") and any(
+            isinstance(n, ast.Return) and dotted(n.value) ==
+            "self._updated_infos" for n in gi.body_nodes())
+    rep.ob(rule, ok_ui, loc=ui.loc(), where=ui.qualname,
+           construct="_updated_infos = " + collalg.pretty(t)[:140],
+           message="every list the worker wrote is written with digests and "
+           "reported back (no filter, slice or early exit)")
+
+
 def run(ctx: Context, rep) -> None:
     rep.not_decided = (
         "equivalence with the sequential run for every schedule of the "
@@ -360,28 +383,17 @@ def run(ctx: Context, rep) -> None:
            message="the filler's _updated_infos travel back with default "
            "pickling")
     gi = filler.methods["get_updated_infos"]
-    # (_update_infos is read in its inlined form, see inline.FORCE_INLINE)
-    from sa import collalg
-    ui = filler.methods["__exit__"]
-    t = collalg.CollAlg(ui).env.get("self._updated_infos", ("empty", ))
-    parts = [p for p in collalg.concat_parts(t)
-             if not (p[0] == "src" and p[1] == "self._updated_infos")]
-    ok_ui = len(parts) == 1 and parts[0][0] == "map" and \
-        parts[0][1][0] == "items" and parts[0][1][1][0] == "src" and \
-        parts[0][1][1][1].endswith("shard_lists") and \
-        parts[0][2].startswith("_v.write_config(") and any(
-            isinstance(n, ast.Return) and dotted(n.value) ==
-            "self._updated_infos" for n in gi.body_nodes())
-    rep.ob("C09.collect", ok_ui, loc=ui.loc(), where=ui.qualname,
-           construct="_updated_infos = " + collalg.pretty(t)[:140],
-           message="every list the worker wrote is written with digests and "
-           "reported back (no filter, slice or early exit)")
+    check_exit_reports(ctx, rep, "C09.collect")
     # writers touch only their own fresh files (who-may-create/delete), and
     # the merge of their lists starts from the lists already on disk
     from sa.rules.c06 import check_who
     from sa.rules.c08 import check_load
     check_who(ctx, rep, "C09.who")
     check_load(ctx, rep, "C09.load")
+    # "a passing integrity check": every digest recorded on the way up is
+    # computed with the configured algorithms (same rule as C16.when)
+    from sa.rules.c16 import check_when
+    check_when(ctx, rep, "C09.hashes")
 
 
 
